@@ -288,7 +288,7 @@ pub fn run(ctx: &Ctx) -> Report {
     rep.need("upfront_checked", 1_000);
     rep.need("quiescent_epochs_checked", 20);
     let mut r = ctx.rng("c10");
-    let n = ctx.count(2_000, 50_000);
+    let n = ctx.count(4_000, 60_000);
     for k in 0..n {
         let seed = ctx.scenario_seed(r.next());
         let mut sr = Rng::new(seed);
